@@ -235,7 +235,7 @@ func checkC04(c *Ctx) (int, error) {
 	rng := rand.New(rand.NewSource(c.Seed))
 	nStreams := 6
 	if c.Tier == "thorough" {
-		nStreams = 40
+		nStreams = 80
 	}
 	streams := corpus(rng, "flate", nStreams, 120000)
 	bnd := boundaryStreams(rng, 1, false)
